@@ -159,7 +159,7 @@ func runC11(r *Report, rng *rand.Rand, thorough bool) {
 		values []string
 	}
 	var lists [][]string
-	fixed := [][]string{{"foo1", "Foo", "foo"}, {"", " "}, {"a-b", "a_b", "a b"}, {"1", "1a", "-1", "+1"}, {"func", "type", "nil"}, {"a\"b", "a\\tb", "line\nbreak"}, {"a", "a", "b"},
+	fixed := [][]string{{"foo1", "Foo", "foo"}, {"", " "}, {"a-b", "a_b", "a b"}, {"1", "1a", "-1", "+1"}, {"func", "type", "nil"}, {"a\"b", "a\\tb", "line\nbreak"}, {"hello", "hello\nworld", "line one\r\nline two"}, {"a", "a", "b"},
 		{"empty", ""}, {"Empty", "", "x"}, {"_empty", "on", ""}, {"_1", "b"}, {"_12", "b"},
 		// names that are exported Go identifiers already and meet after camel-casing
 		{"Kilo_Watt", "KiloWatt", "Joule"}, {"NOT_FOUND", "NOTFOUND"}}
@@ -264,6 +264,11 @@ func runC11(r *Report, rng *rand.Rand, thorough bool) {
 		}
 		pos := positions[d%len(positions)]
 		base := []string{"string", "string", "string", "integer", "number"}[rng.Intn(5)]
+		if d < 3*len(fixed) {
+			// the fixed lists are string lists, and each meets a different position under each of the three options
+			base = "string"
+			pos = positions[(d+d/len(fixed))%len(positions)]
+		}
 		var enumVals []any
 		var specVals []string
 		if base == "integer" {
